@@ -93,6 +93,9 @@ fn probe(event: &Event) -> Option<Event> {
     }
 }
 
+/// events recorded between two `take_events` calls are capped
+const MAX_EVENTS: usize = 1 << 20;
+
 pub fn set_enabled(enabled: bool) {
     ENABLED.with(|e| *e.borrow_mut() = enabled);
 }
@@ -102,6 +105,10 @@ pub fn record(event: Event) {
         let probed = probe(&event);
         LOG.with(|log| {
             let mut log = log.borrow_mut();
+            // a call that loops forever must hit the caller's watchdog, not exhaust memory here
+            if log.len() >= MAX_EVENTS {
+                return;
+            }
             log.push(event);
             if let Some(p) = probed {
                 log.push(p);
